@@ -9,6 +9,7 @@ pub mod c06;
 pub mod c07;
 pub mod c09;
 pub mod c12;
+pub mod c13;
 pub mod c16;
 
 pub fn lookup(id: &str) -> Option<&'static dyn Property> {
@@ -21,6 +22,7 @@ pub fn lookup(id: &str) -> Option<&'static dyn Property> {
         "C07" => Some(&c07::C07),
         "C09" => Some(&c09::C09),
         "C12" => Some(&c12::C12),
+        "C13" => Some(&c13::C13),
         "C16" => Some(&c16::C16),
         _ => None,
     }
